@@ -93,6 +93,7 @@ func runConcClose(out caser, fn int, c ccCfg) {
 		h, ok := parseHdr(w)
 		return ok && h.typ == int(tds.TDS_BUF_CLOSE) && h.channel == id
 	}
+	e.pc.holdClose = true
 	e.pc.mu.Unlock()
 	base := e.pc.NWrites()
 	results := make(chan int64, total)
@@ -149,7 +150,7 @@ func runConcClose(out caser, fn int, c ccCfg) {
 		deadline := time.Now().Add(d)
 		for time.Now().Before(deadline) {
 			drain()
-			if e.pc.Held()+len(codes) >= want {
+			if e.pc.Held()+e.pc.HeldCloses()+len(codes) >= want {
 				return true
 			}
 			time.Sleep(200 * time.Microsecond)
